@@ -184,7 +184,7 @@ func runFree(dir string, schedFile string, w *vtrace.Writer) {
 		var sch schedule
 		must(json.Unmarshal(sc.Bytes(), &sch))
 		n++
-		s.g.prog = sch.ID
+		s.g.prog, s.g.uploads = sch.ID, nil
 		s.g.interp.Reset(sch.ID)
 		s.g.emit(map[string]any{"ev": "FReset"})
 		for _, st := range sch.Steps {
@@ -200,7 +200,7 @@ func runFree(dir string, schedFile string, w *vtrace.Writer) {
 				// not a verdict: the run is given up as an infrastructure failure
 				fatal("free run: call %v did not return within %v", st.Call, stepTimeout)
 			}
-			if str(st.Call, "op") == "AppendObject" && ret["err"] == "" {
+			if (str(st.Call, "op") == "AppendObject" || str(st.Call, "op") == "CreateUpload") && ret["err"] == "" {
 				// an append may create a version but does not return its id: look at the inner storage so
 				// that version ids keep being numbered in creation order
 				_ = s.g.interp.Views(s.g.raw)
@@ -355,7 +355,19 @@ func (s *stack) doCall(ctx context.Context, c pdrv.Call) map[string]any {
 	st := s.st
 	ret := map[string]any{"op": str(c, "op"), "err": "", "vid": -1, "dm": false,
 		"content": []string{}, "objvid": -1, "keys": []string{}, "buckets": []string{},
-		"versions": []any{}, "etagblob": "", "tags": "", "ver": ""}
+		"versions": []any{}, "etagblob": "", "tags": "", "ver": "", "uid": -1}
+	upload := func() storage.UploadId {
+		n := 0
+		if f, ok := c["u"].(float64); ok {
+			n = int(f)
+		}
+		s.g.mu.Lock()
+		defer s.g.mu.Unlock()
+		if n >= 1 && n <= len(s.g.uploads) {
+			return storage.MustNewUploadId(s.g.uploads[n-1])
+		}
+		return storage.MustNewUploadId(ulid.Make().String()) // an upload never created
+	}
 	var err error
 	b := storage.BucketName{}
 	if str(c, "b") != "" {
@@ -442,6 +454,47 @@ func (s *stack) doCall(ctx context.Context, c pdrv.Call) map[string]any {
 			}
 			ret["dm"] = r.IsDeleteMarker
 		}
+	case "CreateUpload":
+		var r *storage.InitiateMultipartUploadResult
+		r, err = st.CreateMultipartUpload(ctx, b, k, nil, nil, nil)
+		if err == nil {
+			s.g.mu.Lock()
+			s.g.uploads = append(s.g.uploads, r.UploadId.String())
+			ret["uid"] = len(s.g.uploads)
+			s.g.mu.Unlock()
+		}
+	case "UploadPart":
+		_, err = st.UploadPart(ctx, b, k, upload(), 1, bytes.NewReader(pdrv.BlobBytes(str(c, "blob"))), nil)
+	case "CompleteUpload":
+		ifm, inm := cond()
+		var opts *storage.CompleteMultipartUploadOptions
+		if ifm != nil || inm {
+			opts = &storage.CompleteMultipartUploadOptions{IfNoneMatchStar: inm, IfMatchETag: ifm}
+		}
+		var r *storage.CompleteMultipartUploadResult
+		r, err = st.CompleteMultipartUpload(ctx, b, k, upload(), nil, opts)
+		if err == nil {
+			ret["vid"] = 0
+			if r.VersionID != nil {
+				ret["vid"] = s.g.interp.ModelVid(*r.VersionID)
+			}
+		}
+	case "AbortUpload":
+		err = st.AbortMultipartUpload(ctx, b, k, upload())
+	case "PutTagging":
+		if t := optOf(str(c, "opt")).tags; t != nil {
+			err = st.PutObjectTagging(ctx, b, k, t, nil)
+		} else {
+			err = st.DeleteObjectTagging(ctx, b, k, nil)
+		}
+	case "Transition":
+		err = st.TransitionObjectStorageClass(ctx, b, k, "GLACIER", nil)
+	case "DeleteWebsite":
+		err = st.DeleteBucketWebsiteConfiguration(ctx, b)
+	case "DeleteCORS":
+		err = st.DeleteBucketCORSConfiguration(ctx, b)
+	case "DeleteLifecycle":
+		err = st.DeleteBucketLifecycleConfiguration(ctx, b)
 	case "HeadObject":
 		var o *storage.Object
 		o, err = st.HeadObject(ctx, b, k, nil)
@@ -674,7 +727,7 @@ func main() {
 		n++
 		g := d.s.g
 		g.mu.Lock()
-		g.prog, g.seqOf, g.nseq = sch.ID, map[string]int{}, 0
+		g.prog, g.seqOf, g.nseq, g.uploads = sch.ID, map[string]int{}, 0, nil
 		g.mu.Unlock()
 		g.interp.Reset(sch.ID)
 		g.emit(map[string]any{"ev": "Reset"})
